@@ -1772,3 +1772,85 @@ let no_plan =
 let disk0 orig = function
 | RIn -> Closed (Data orig)
 | _ -> Absent
+
+type 'digest bst = { b_file : bytes; b_backup : (bytes * bool) option;
+                     b_md5 : 'digest option }
+
+type phase =
+| K0
+| K1 of nat
+| K2
+| K3
+| Completed
+
+type event =
+| Edit of bytes
+| Run of (bytes -> bytes option) * phase
+
+(** val own : (bytes -> 'a1) -> ('a1 -> 'a1 -> bool) -> 'a1 bst -> bool **)
+
+let own h digest_eqb s =
+  match s.b_md5 with
+  | Some d -> digest_eqb d (h s.b_file)
+  | None -> false
+
+(** val run_step :
+    (bytes -> 'a1) -> ('a1 -> 'a1 -> bool) -> 'a1 bst -> (bytes -> bytes
+    option) -> phase -> 'a1 bst **)
+
+let run_step h digest_eqb s f ph =
+  let due = negb (own h digest_eqb s) in
+  let full_bk = if due then Some (s.b_file, true) else s.b_backup in
+  (match ph with
+   | K0 -> s
+   | K1 j ->
+     { b_file = s.b_file; b_backup =
+       (if due then Some ((firstn j s.b_file), false) else s.b_backup);
+       b_md5 = s.b_md5 }
+   | K2 -> { b_file = s.b_file; b_backup = full_bk; b_md5 = s.b_md5 }
+   | K3 ->
+     (match f s.b_file with
+      | Some out0 ->
+        { b_file = s.b_file; b_backup = full_bk; b_md5 = (Some (h out0)) }
+      | None -> { b_file = s.b_file; b_backup = full_bk; b_md5 = s.b_md5 })
+   | Completed ->
+     (match f s.b_file with
+      | Some out0 ->
+        { b_file = out0; b_backup = full_bk; b_md5 = (Some (h out0)) }
+      | None -> { b_file = s.b_file; b_backup = full_bk; b_md5 = s.b_md5 }))
+
+(** val step :
+    (bytes -> 'a1) -> ('a1 -> 'a1 -> bool) -> 'a1 bst -> event -> 'a1 bst **)
+
+let step h digest_eqb s = function
+| Edit c -> { b_file = c; b_backup = s.b_backup; b_md5 = s.b_md5 }
+| Run (f, ph) -> run_step h digest_eqb s f ph
+
+(** val pstep :
+    (bytes -> 'a1) -> ('a1 -> 'a1 -> bool) -> bytes -> 'a1 bst -> event ->
+    bytes **)
+
+let pstep h digest_eqb prot s = function
+| Edit c -> c
+| Run (_, ph) ->
+  (match ph with
+   | K0 -> prot
+   | K1 _ -> prot
+   | _ -> if own h digest_eqb s then prot else s.b_file)
+
+(** val admissible :
+    (bytes -> 'a1) -> ('a1 -> 'a1 -> bool) -> 'a1 bst -> event -> bool **)
+
+let admissible h digest_eqb s = function
+| Edit c ->
+  negb (match s.b_md5 with
+        | Some d -> digest_eqb d (h c)
+        | None -> false)
+| Run (_, ph) -> (match ph with
+                  | K3 -> negb (own h digest_eqb s)
+                  | _ -> true)
+
+(** val idh : bytes -> bytes **)
+
+let idh b =
+  b
